@@ -1491,8 +1491,10 @@ impl SourceLocation for RedirectList {
 
 impl Display for RedirectList {
     fn fmt(&self, f: &mut std::fmt::Formatter<'_>) -> std::fmt::Result {
+        // N.B. Each redirection is set off by a space: glued to what precedes it, `2>& 1` after
+        // `> /dev/null` would read back as the file name `/dev/null2`.
         for item in &self.0 {
-            write!(f, "{item}")?;
+            write!(f, " {item}")?;
         }
         Ok(())
     }
